@@ -208,7 +208,8 @@ def r_panic(ctx):
                     what = kind
                 if not kind:
                     continue
-                base = "%s|%s|%s" % (file, fi.qual, what)
+                arms = [vf.src(p["pat"])[:40] for p in parents if p["k"] == "arm"][-2:]
+                base = "%s|%s|%s|in %s" % (file, fi.qual, what, " > ".join(arms) or "-")
                 i = counts.get(base, 0)
                 counts[base] = i + 1
                 key = "%s#%d" % (base, i)
